@@ -58,7 +58,9 @@ COEFS = [-3.0, -2.0, -1.0, 1.0, 2.0, 3.0, 0.5, -0.25, 1.5, 59.81, -0.000223, 1e-
 # others carry magnitudes (1e-07, 123456.789..., 1e9) that make GLPK's answer depend on the pivoting order
 COEFS_TAME = [-3.0, -2.0, -1.0, 1.0, 2.0, 3.0, 0.5, -0.25, 1.5, 59.81, -4.0, 10.0]
 WILD_BOUNDS = {(-1e-06, 12345678.9), (5.0, 1e9), (0.001, 99999.5), (-999.999999999999, 1000.00000000001)}
-PRECISE = [1.0 / 3.0, 0.1 + 0.2, 3.141592653589793e5, 1e-12 / 3.0, -2.0 / 7.0, 1234567.0 / 9.0, 5e-324 * 1e300, 0.1]
+# the last three are doubles that ruamel.yaml writes back with a changed last digit once they have been read as ScalarFloat
+PRECISE = [1.0 / 3.0, 0.1 + 0.2, 3.141592653589793e5, 1e-12 / 3.0, -2.0 / 7.0, 1234567.0 / 9.0, 5e-324 * 1e300, 0.1,
+           8.479136122782063e-13, 1.809298364047174e-20]
 OBJ_COEFS = [1.0, 1.0, -1.0, 2.0, 0.5, -2.5, 10.0]
 
 # identifiers accepted by Model/Reaction/Metabolite/Group (optlang refuses white space; everything else goes)
